@@ -95,6 +95,9 @@ def run(F, tier, res):
                         any(rr[0] == 'call' and rr[1] in render and F.bodies[rr[1]]['mir']['locals'][0].startswith('std::result::Result<') and 'std::io::Error' in F.bodies[rr[1]]['mir']['locals'][0] for rr in F.trace(p, c['args'][0])):
                     res.violate('ERR-DISCIPLINE', 'fn=%s;callee=%s' % (p, r.split('::')[-1]), 'an io::Error from an output write is unwrapped or discarded in the renderer: '
                                 'a closed pipe panics or is ignored instead of ending delta quietly', where=F.span_of_call(c))
+            if r == 'std::io::Write::write' or r.endswith(' as std::io::Write>::write'):
+                res.violate('ERR-DISCIPLINE', 'fn=%s;short-write' % p, 'the renderer calls Write::write (which may write only part of the buffer) instead of write_all / write!: '
+                            'output is silently lost when the reader is slow and the write is interrupted', where=F.span_of_call(c))
             # dropped results of writer calls: dest local of type Result<(), io::Error> never used
             dty = c.get('dest_ty', '')
             if dty.startswith('std::result::Result<') and 'std::io::Error' in dty and not c['dest']['p'] and c['target'] is not None:
